@@ -60,6 +60,8 @@ def w(x):
         return W('M8%s:%d' % (np.datetime_data(x.dtype)[0], x.astype(np.int64)))      # finer than a microsecond: the COUNT in its own unit
     if isinstance(x, np.datetime64):
         return W('NaT:M' if np.isnat(x) else 'M8%s:%d' % (np.datetime_data(x.dtype)[0], proto.dt2us(x.astype('M8[us]').item())))
+    if isinstance(x, np.timedelta64) and not np.isnat(x) and np.datetime_data(x.dtype)[0] in FINE:
+        return W('m8%s:%d' % (np.datetime_data(x.dtype)[0], x.astype(np.int64)))      # finer than a microsecond: the COUNT in its own unit (k5)
     if isinstance(x, np.timedelta64) and not np.isnat(x) and np.datetime_data(x.dtype)[0] in ('Y', 'M'):
         return W('m8%s:%d' % (np.datetime_data(x.dtype)[0], x.astype(int)))      # a calendar duration: the COUNT of years / months (there are no microseconds in a month)
     if isinstance(x, np.timedelta64):
@@ -85,6 +87,21 @@ def DC(n, **kw):
     return W('(DC %d' % n + ''.join(' (%s %s)' % (proto.hexs(k), w(v)) for k, v in kw.items()) + ')')
 
 
+def LS(n, *cells):
+    """an instance of list / tuple SUBCLASS number n (SUBCLASSES; 1, 2: two namedtuple classes, 3, 4: two list subclasses, 5: a tuple subclass)"""
+    return W('(LS %d' % n + ''.join(' ' + w(c) for c in cells) + ')')
+
+
+def IX(kind, labels):
+    """a pd.Index as a VALUE; kind o = pd.Index, r = pd.RangeIndex (consecutive ints), d = pd.DatetimeIndex - the model ignores the kind"""
+    return W('(IX %s (%s))' % (kind, ' '.join(w(i) for i in labels)))
+
+
+def SN(name, idx, *cells):
+    """a Series with a name"""
+    return W('(SN %s (%s)' % (w(name), ' '.join(w(i) for i in idx)) + ''.join(' ' + w(c) for c in cells) + ')')
+
+
 def A(dtype, shape, *cells):
     return W('(A %s (%s)' % (dtype, ' '.join(map(str, shape))) + ''.join(' ' + w(c) for c in cells) + ')')
 
@@ -100,10 +117,37 @@ def DF(idx, cols, *cells):
 # ---------------------------------------------------------------- decoding into fresh python objects
 
 DTYPES = {'i': np.int64, 'f': np.float64, 'e': np.float32, 'b': bool, 'U': str,
-          'Mns': 'M8[ns]', 'Mus': 'M8[us]', 'Ms': 'M8[s]', 'MD': 'M8[D]', 'Mps': 'M8[ps]', 'Mfs': 'M8[fs]', 'mns': 'm8[ns]', 'mus': 'm8[us]', 'mD': 'm8[D]', 'mY': 'm8[Y]', 'mM': 'm8[M]'}
+          'Mns': 'M8[ns]', 'Mus': 'M8[us]', 'Ms': 'M8[s]', 'MD': 'M8[D]', 'Mps': 'M8[ps]', 'Mfs': 'M8[fs]', 'mns': 'm8[ns]', 'mus': 'm8[us]', 'mD': 'm8[D]', 'mY': 'm8[Y]', 'mM': 'm8[M]',
+          'mps': 'm8[ps]', 'mfs': 'm8[fs]'}
 
 
 FINE = ('ps', 'fs', 'as')
+
+
+class L1(list):
+    pass
+
+
+class L2(list):
+    pass
+
+
+class T1(tuple):
+    pass
+
+
+_NT = {}
+
+
+def subclass_instance(n, cells):
+    """list / tuple subclass number n holding the cells.  A namedtuple class has a fixed number of fields: one class per (n, arity) - instances of
+    different arity are then of different classes AND of different length, eq is False either way (the model: same class number, lengths differ)"""
+    if n in (1, 2):
+        key = (n, len(cells))
+        if key not in _NT:
+            _NT[key] = collections.namedtuple('PQ'[n - 1], ['f%d' % i for i in range(len(cells))])
+        return _NT[key](*cells)
+    return {3: L1, 4: L2, 5: T1}[n](cells)
 
 
 class F32(object):
@@ -124,6 +168,8 @@ def dec_cell(a):
     if a.startswith('M8'):
         unit, us = a[2:].split(':')
         return np.datetime64(proto.us2dt(int(us)), 'us').astype('M8[%s]' % unit)[()]
+    if a[:5] in ('m8ps:', 'm8fs:', 'm8as:'):
+        return np.timedelta64(int(a[5:]), a[2:4])
     if a.startswith('m8Y:') or a.startswith('m8M:') or a.startswith('CM:'):
         return np.timedelta64(int(a.split(':')[1]), 'Y' if a[2] == 'Y' else 'M')
     if a.startswith('m8'):
@@ -145,6 +191,19 @@ def dec(x):
         return [dec(y) for y in rest]
     if head == 'T':
         return tuple(dec(y) for y in rest)
+    if head == 'LS':
+        return subclass_instance(int(rest[0]), [dec(y) for y in rest[1:]])
+    if head == 'IX':
+        labels = [dec_cell(i) for i in rest[1]]
+        if rest[0] == 'r' and all(type(l) is int for l in labels) and labels == list(range(labels[0] if labels else 0, (labels[0] if labels else 0) + len(labels))):
+            return pd.RangeIndex(labels[0], labels[0] + len(labels)) if labels else pd.RangeIndex(0)
+        if rest[0] == 'd' and labels and all(isinstance(l, datetime.datetime) for l in labels):
+            return pd.DatetimeIndex(labels)
+        return _index(labels)
+    if head == 'SN':
+        s = dec(['S'] + list(rest[1:]))
+        s.name = dec_cell(rest[0])
+        return s
     if head == 'D':
         return {proto.unhex(kv[0]): dec(kv[1]) for kv in rest}
     if head == 'DC':
@@ -203,7 +262,7 @@ def _column(cells, as_objects=False):
     # (a year / month np.timedelta64 can only be an object cell: pandas refuses the unit in a list and reads an m8[M] ARRAY as average seconds)
     if as_objects or any(isinstance(c, (list, tuple, dict, np.ndarray, pd.Series, pd.DataFrame)) or
                          (isinstance(c, np.timedelta64) and np.datetime_data(c.dtype)[0] in ('Y', 'M')) or
-                         (isinstance(c, np.datetime64) and np.datetime_data(c.dtype)[0] in FINE) for c in cells):      # pandas would truncate a ps cell to ns
+                         (isinstance(c, (np.datetime64, np.timedelta64)) and np.datetime_data(c.dtype)[0] in FINE) for c in cells):      # pandas would truncate a ps cell to ns
         a = np.empty(len(cells), dtype=object)
         for i, c in enumerate(cells):
             a[i] = c
@@ -224,9 +283,14 @@ def kind(sx):
     """the container type eq must be strict about"""
     if isinstance(sx, str):
         return 'scalar'
-    if sx[0] == 'DC':
-        return 'DC' + sx[1]
-    return sx[0]
+    if sx[0] in ('DC', 'LS'):
+        return sx[0] + sx[1]
+    return 'S' if sx[0] == 'SN' else sx[0]      # (a pd.Index of any subclass is kind IX: the branch tests isinstance; the name of a Series is not part of its type)
+
+
+def unnamed(sx):
+    """a named Series as the Series"""
+    return ['S'] + sx[2:] if isinstance(sx, list) and sx[0] == 'SN' else sx
 
 
 def plain(sx):
@@ -272,6 +336,17 @@ def universe():
          datetime.date(1970, 1, 1), [D(1970, 1, 1)], [pd.Timestamp('1970-01-01')], [d64(0, 'ps')], {'a': d64(0, 'ps')}, {'a': D(1970, 1, 1)},
          A('Mps', (1,), d64(0, 'ps')), A('Mfs', (1,), d64(0, 'fs')), A('Mps', (1,), d64(1, 'ps')), A('Mns', (1,), D(1970, 1, 1)), A('o', (1,), D(1970, 1, 1)), A('o', (1,), d64(0, 'ps')),
          A('i', (1,), 0), S([0], d64(0, 'ps')), S([0], D(1970, 1, 1)),
+         # k5 - timedelta64 finer than ns (repaired with C14-F9, now spelled): 1 ps = 1000 fs, 10**6 ps is NOT the microsecond pandas holds, never the count, never the fine datetime64
+         t64(0, 'ps'), t64(1, 'ps'), t64(1000, 'fs'), t64(10 ** 6, 'ps'), t64(0, 'as'), t64(0, 'ns'), TD(0), [t64(1, 'ps')], {'a': t64(1, 'ps')},
+         A('mps', (1,), t64(1, 'ps')), A('mfs', (1,), t64(1000, 'fs')), A('o', (1,), t64(1, 'ps')), A('mus', (1,), TD(microseconds=1)), A('mps', (1,), t64(10 ** 6, 'ps')), S([0], t64(1, 'ps')),
+         # k5 - list / tuple SUBCLASSES (namedtuples P, Q; list subclasses L1, L2; tuple subclass T1): type(x) == type(y), python == says P(1,2) == (1,2)
+         LS(1, 1, 2), LS(2, 1, 2), LS(1, 1.0, 2), LS(1, 1, nan), LS(1, 1), LS(3, 1, 2), LS(4, 1, 2), LS(5, 1, 2), LS(3), LS(4), LS(5), LS(1),
+         [LS(1, 1, 2)], {'a': LS(1, 1, 2)}, {'a': (1, 2)}, A('o', (1,), LS(3, 1, 2)), LS(3, LS(1, 1, 2)), LS(3, (1, 2)),
+         # k5 - pd.Index as a VALUE: isinstance, not type == (Index / RangeIndex / DatetimeIndex with the same labels are eq), never the list / array / Series of its labels
+         IX('o', [1, 2]), IX('r', [1, 2]), IX('o', [1.0, 2.0]), IX('o', [1]), IX('o', []), IX('r', []), IX('o', ['a']), IX('o', [nan]), IX('o', [1.0, nan]),
+         IX('d', [D(2020, 1, 1)]), IX('o', ['2020-01-01']), IX('o', [BIG + 1]), IX('o', [float(BIG)]), [IX('o', [1, 2])], {'a': IX('r', [1, 2])}, {'a': [1, 2]}, S([1, 2], 1, 2),
+         # k5 - a Series that has a NAME (every column taken out of a frame): eq compares index and cells
+         SN('x', [0, 1], 1.0, 2.0), SN('y', [0, 1], 1.0, 2.0), SN(0, [0, 1], 1.0, nan), [SN('x', [0, 1], 1.0, 2.0)], SN('x', [1, 2], 1.0, 2.0),
          # datetime64 / timedelta64 arrays (C14-F7) next to int arrays holding what astype(object) makes of an M8[ns] cell, and to object arrays
          A('Mns', (1,), D(2020, 1, 1)), A('Mus', (1,), D(2020, 1, 1)), A('MD', (1,), D(2020, 1, 1)), A('Ms', (1,), D(2020, 1, 1)), A('i', (1,), NS2020),
          # the SAME integer payload under different units (seeded C14-u1: a memo of converted cells keyed without the unit): days 1, 2
@@ -321,7 +396,8 @@ SCALARS = [None, True, False, 0, 1, -1, 2, 3, 1.0, 2.0, 2.5, -0.25, '', 'a', 'b'
            BIG, BIG + 1, float(BIG), np.int64(BIG + 1), np.float64(BIG), F32(2.5), F32(1.0),
            d64('2020-01-01'), d64('2020-01-01', 'ns'), d64('2020-01-02', 'us'), d64('2020-01-02T00', 'h'), t64(1, 'D'), t64(24, 'h'), TD(days=1), TD(days=2), pd.Timedelta(days=2), 24,
            t64(2, 'Y'), t64(24, 'M'), t64(2, 'M'), t64(1, 'W'), t64(7, 'D'), 12,
-           D(1970, 1, 1), pd.Timestamp('1970-01-01'), d64(0, 'ps'), d64(1, 'ps'), d64(1000, 'fs'), d64(0, 'ns'), d64(0, 'as')]
+           D(1970, 1, 1), pd.Timestamp('1970-01-01'), d64(0, 'ps'), d64(1, 'ps'), d64(1000, 'fs'), d64(0, 'ns'), d64(0, 'as'),
+           t64(0, 'ps'), t64(1, 'ps'), t64(1000, 'fs'), t64(1, 'us'), t64(10 ** 6, 'ps'), t64(0, 'as'), TD(0)]
 TIMES = [D(2020, 1, 1), D(2020, 1, 2), D(2020, 1, 2), pd.NaT]
 SPANS = [TD(days=1), TD(days=2), TD(days=2), pd.NaT]
 LABELS = [[0, 1, 2, 3], [1, 2, 3, 4], ['a', 'b', 'c', 'd'], [D(2020, 1, 1), D(2020, 1, 2), D(2020, 1, 3), D(2020, 1, 6)], [0.0, 1.0, 2.0, 3.0],
@@ -353,6 +429,8 @@ def rand_num(rng, dtype):
         return rng.choice([d64(0, dtype[1:]), d64(1, dtype[1:]), d64(1, dtype[1:]), d64(1000, dtype[1:]), pd.NaT])
     if dtype[0] == 'M':
         return rng.choice(TIMES)
+    if dtype in ('mps', 'mfs'):
+        return rng.choice([t64(0, dtype[1:]), t64(1, dtype[1:]), t64(1, dtype[1:]), t64(1000, dtype[1:]), pd.NaT])
     if dtype == 'mY':
         return rng.choice([t64(1, 'Y'), t64(2, 'Y'), t64(2, 'Y'), t64(0, 'Y'), pd.NaT])
     if dtype == 'mM':
@@ -379,8 +457,12 @@ def rand_val(rng, depth):
         return w(rand_scalar(rng))
     n = rng.choice([0, 1, 1, 2, 2, 3])
     if r < 0.45:
+        if rng.random() < 0.15:
+            return LS(rng.choice([3, 3, 4]), *[rand_val(rng, depth - 1) for _ in range(n)])
         return w([rand_val(rng, depth - 1) for _ in range(n)])
     if r < 0.55:
+        if rng.random() < 0.3:
+            return LS(rng.choice([1, 1, 2, 5]), *[rand_val(rng, depth - 1) for _ in range(n)])
         return w(tuple(rand_val(rng, depth - 1) for _ in range(n)))
     if r < 0.7:
         keys = rng.sample(['a', 'b', 'c', 'd'], n)
@@ -389,7 +471,7 @@ def rand_val(rng, depth):
         return w(items) if c == 0 else DC(c, **items)
     if r < 0.85:
         shape = rand_shape(rng)
-        dtype = rng.choice(['i', 'f', 'f', 'e', 'b', 'U', 'o', 'Mns', 'Mus', 'MD', 'Mps', 'Mfs', 'mns', 'mD', 'mY', 'mM'])
+        dtype = rng.choice(['i', 'f', 'f', 'e', 'b', 'U', 'o', 'Mns', 'Mus', 'MD', 'Mps', 'Mfs', 'mns', 'mD', 'mY', 'mM', 'mps', 'mfs'])
         if dtype == 'o':
             return A('o', shape, *[rand_val(rng, depth - 1) for _ in range(prod(shape))])
         return A(dtype, shape, *[rand_num(rng, dtype) for _ in range(prod(shape))])
@@ -398,9 +480,14 @@ def rand_val(rng, depth):
     dtype = rng.choice(['i', 'f', 'f', 'U', 'Mns', 'x', 'x'])      # x: frame columns alternate int (beyond 2**53 too) and float
     if r < 0.93:
         dtype = 'f' if dtype == 'x' else dtype
+        q = rng.random()
+        if q < 0.12:      # the axis itself as a value
+            ints = idx and all(type(l) is int for l in idx)
+            return IX(rng.choice('or') if ints else 'd' if idx and all(isinstance(l, datetime.datetime) for l in idx) else 'o', idx)
+        named = (lambda *a: SN(rng.choice(['x', 'x', 'y', 0]), *a)) if q < 0.3 else S
         if rng.random() < 0.15:
-            return S(idx, *[rand_val(rng, depth - 1) for _ in range(k)])
-        return S(idx, *[rand_num(rng, dtype) for _ in range(k)])
+            return named(idx, *[rand_val(rng, depth - 1) for _ in range(k)])
+        return named(idx, *[rand_num(rng, dtype) for _ in range(k)])
     m = rng.choice([0, 1, 1, 2])
     if dtype == 'x' or rng.random() < 0.3:      # int columns (mostly beyond 2**53) alternating with float columns
         k, m = rng.choice([1, 2, 3]), rng.choice([2, 2, 3])
@@ -444,6 +531,32 @@ def mutate(rng, sx):
             i = rng.randrange(1, len(sx))
             return sx[:i] + [mutate(rng, sx[i])] + sx[i + 1:]
         return sx
+    if head == 'LS':
+        if r < 0.3:      # the plain list / tuple of the same elements, another subclass
+            return rng.choice([['L'], ['T'], ['LS', rng.choice([c for c in '12345' if c != sx[1]])]]) + sx[2:]
+        if r < 0.4:
+            return sx + [w(rand_scalar(rng))]
+        if len(sx) > 2:
+            i = rng.randrange(2, len(sx))
+            return sx[:i] + [mutate(rng, sx[i])] + sx[i + 1:]
+        return sx
+    if head == 'IX':
+        labels = sx[2]
+        if r < 0.35 and labels:
+            i = rng.randrange(len(labels))
+            return ['IX', sx[1], labels[:i] + [_relabel(rng, labels[i])] + labels[i + 1:]]
+        if r < 0.55:
+            return ['IX', rng.choice([c for c in 'ord' if c != sx[1]]), labels]      # another Index subclass where the labels allow it (else the decoder builds pd.Index)
+        if r < 0.7:
+            return rng.choice([['L'], ['T'], ['A', 'o', [str(len(labels))]]]) + labels
+        if r < 0.8:
+            return ['S', labels] + labels
+        return ['IX', sx[1], labels + [w(rng.choice(LABEL_ALTS))]]
+    if head == 'SN':
+        if r < 0.3:
+            return rng.choice([['S'], ['SN', w(rng.choice(['x', 'y', 'z', 0]))]]) + sx[2:]
+        m = mutate(rng, ['S'] + sx[2:])
+        return ['SN', sx[1]] + m[1:] if m[0] == 'S' else m
     if head in ('D', 'DC'):
         items = sx[1:] if head == 'D' else sx[2:]
         if r < 0.3:
@@ -488,6 +601,18 @@ def mutate(rng, sx):
             if to == 'i' and all(c.startswith('T:') for c in cells):        # what M8[ns].astype(object) holds: ns since 1970
                 return ['A', 'i', shape] + ['I:%d' % ((int(c[2:]) - proto.dt2us(D(1970, 1, 1))) * 1000) for c in cells]
             return ['A', to if to != 'i' else 'o', shape] + cells
+        if r < 0.6 and dtype in ('mps', 'mfs'):
+            # the same durations in the other fine unit (exact), as objects, as the int array of the counts, as the ns array pandas would truncate them to
+            to = rng.choice(['mps', 'mfs', 'o', 'i', 'mns'])
+            if to == 'i' and all(c.startswith('m8') for c in cells):
+                return ['A', 'i', shape] + ['I:' + c.split(':')[1] for c in cells]
+            if to == 'mns':      # what pandas would hold: truncated (the wire spells whole microseconds)
+                return ['A', 'mns', shape] + ['TD:%d' % (int(c[5:]) // (10 ** 6 if c[2] == 'p' else 10 ** 9)) if c.startswith('m8') else c for c in cells]
+            if to == 'mfs':
+                return ['A', to, shape] + ['m8fs:%d' % (int(c[5:]) * 1000) if c.startswith('m8ps:') else c for c in cells]
+            if to == 'mps' and all(int(c[5:]) % 1000 == 0 for c in cells if c.startswith('m8fs:')):
+                return ['A', to, shape] + ['m8ps:%d' % (int(c[5:]) // 1000) if c.startswith('m8fs:') else c for c in cells]
+            return ['A', 'o', shape] + cells
         if r < 0.6 and dtype in ('mY', 'mM'):
             # years as months (exact), as objects, and as the int array of the counts (what numpy's == compares them with)
             to = rng.choice(['mM', 'o', 'i'])
@@ -742,6 +867,7 @@ def compare(case, i, line, ir, mr):
 def _float_cell_differs(x, y):
     """two arrays of the same float dtype / two Series / two frames whose cells are all python floats (no int next to a float: pandas
     would round it into the column's dtype): the first position at which two non-NaN cells are different numbers, else None"""
+    x, y = unnamed(x), unnamed(y)
     if not (isinstance(x, list) and isinstance(y, list) and x[0] == y[0] and x[0] in ('A', 'S', 'DF')):
         return None
     if x[0] == 'A' and (x[1] != y[1] or x[1] not in 'fe'):
@@ -777,6 +903,9 @@ def _eq(x, y):
 
 def shape_of(sx):
     """what must match for arrays / pandas objects to be equal"""
+    sx = unnamed(sx)
+    if isinstance(sx, list) and sx[0] == 'IX':
+        return len(sx[2])
     if isinstance(sx, list) and sx[0] == 'A':
         return tuple(sx[2])
     if isinstance(sx, list) and sx[0] == 'S':
@@ -789,6 +918,9 @@ def shape_of(sx):
 def labels_of(sx):
     """canonical axis labels of a pandas object (labels equal under python == coincide)"""
     can = lambda ls: tuple(proto.canon_cell('T:' + a[3:] if a.startswith('PT:') else a) for a in ls)
+    sx = unnamed(sx)
+    if isinstance(sx, list) and sx[0] == 'IX':
+        return (can(sx[2]),)
     if isinstance(sx, list) and sx[0] == 'S':
         return (can(sx[1]),)
     if isinstance(sx, list) and sx[0] == 'DF':
